@@ -633,7 +633,12 @@ class Engine:
             c.assume(z3.Implies(r, z3.And(M_int_ok(t), M_int_val(t) >= 0, z3.Length(t) > 0, M.str_isdigit(t))))
             return mk("bool", r)
         if name == "lower":
-            return mk("str", M.str_lower(as_str_term(val)))
+            t = as_str_term(val)
+            r = M.str_lower(t)
+            # A-LOWER: str.lower() is idempotent and leaves a leading '.' in place (checked natively over all code points)
+            c.assume(z3.And(M.str_lower(r) == r, z3.PrefixOf(z3.StringVal("."), t) == z3.PrefixOf(z3.StringVal("."), r),
+                            (z3.Length(t) == 0) == (z3.Length(r) == 0)))
+            return mk("str", r)
         if name == "strip" and not args:
             return mk("str", M.str_strip(as_str_term(val)))
         raise Undecided(f"str.{name} on symbolic string (line {getattr(node, 'lineno', '?')})")
